@@ -1,6 +1,8 @@
 package main
 
 import (
+	"unsafe"
+	"context"
 	"fmt"
 
 	"k3l.io/go-eigentrust/pkg/sparse"
@@ -244,10 +246,41 @@ func runC11(c *Case) error {
 		type step struct{ R, A Mat }
 		var obs []step
 		var parts, ups []string
-		for _, u := range in.Updates {
+		for k, u := range in.Updates {
 			c.Nontrivial = true
 			arg := u.csr()
+			// every third update arrives swapped out (as the gRPC/OpenAPI stores keep their matrices), every
+			// fourth merge goes into a swapped-out target: the overlay must not depend on where the spans live
+			if k%4 == 2 {
+				_ = m.Mmap(context.Background())
+			}
+			var before [][2]uintptr
+			if k%3 == 1 {
+				if arg.Mmap(context.Background()) == nil {
+					before = csmMappingsOf(arg)
+				}
+			}
 			m.Merge(&arg.CSMatrix)
+			if before != nil { // no row of the target may point into a region that is no longer mapped
+				now := allCsmMappings()
+				for _, row := range m.Entries {
+					if len(row) == 0 {
+						continue
+					}
+					p := uintptr(unsafe.Pointer(unsafe.SliceData(row)))
+					for _, o := range before {
+						if p >= o[0] && p < o[1] {
+							live := false
+							for _, n := range now {
+								live = live || n == o
+							}
+							if !live {
+								panic("CSMatrix.Merge: a row of the target points into the update's mapping, which has been unmapped")
+							}
+						}
+					}
+				}
+			}
 			obs = append(obs, step{matOf(&m.CSMatrix), matOf(&arg.CSMatrix)})
 			parts = append(parts, fmt.Sprintf("(%s, %s)", cMat(matOf(&m.CSMatrix)), cMat(matOf(&arg.CSMatrix))))
 			ups = append(ups, cMat(u))
